@@ -590,6 +590,7 @@ class Analysis:
         if not newtype_int(self, et):
           return out
         suffix = ('0',)
+      out[pre + ('#len',)] = iv(len(v['arr']), len(v['arr']))
       out[pre + ('[*]',) + suffix] = iv(min(v['arr']), max(v['arr']))
       for i, x in enumerate(v['arr'][:64]):
         out[pre + ('[%d]' % i,) + suffix] = iv(x, x)
